@@ -3,6 +3,7 @@
 -/
 import Honeycomb.Lemmas.KernelWF2
 import Honeycomb.Props.C13
+import Honeycomb.Props.C03
 
 set_option linter.unusedSimpArgs false
 set_option linter.unusedVariables false
@@ -60,5 +61,441 @@ theorem keeps_earclipLoop (cfg : Cfg Val) (nn : Nat) (inside : P2 → P2 → P2 
           obtain ⟨_, m7, s7, h⟩ := run_bind_ok h
           obtain ⟨i7, _, _, _⟩ := twoSew2_eff cfg nn i6 l1 l2 hne s7
           exact ih _ _ _ _ i7 (fun c hc => hsp c (by simp [hc])) h
+
+theorem chunks2_mem : ∀ (l : List Nat) (c : Nat × Nat), c ∈ chunks2 l → c.1 ∈ l ∧ c.2 ∈ l
+  | [], c, h => by simp [chunks2] at h
+  | [_], c, h => by simp [chunks2] at h
+  | a :: b :: rest, c, h => by
+      simp only [chunks2, List.mem_cons] at h
+      rcases h with rfl | h
+      · simp
+      · obtain ⟨h1, h2⟩ := chunks2_mem rest c h
+        exact ⟨by simp [h1], by simp [h2]⟩
+
+theorem chunks2_ne : ∀ (l : List Nat), l.Nodup → ∀ c ∈ chunks2 l, c.1 ≠ c.2
+  | [], _, c, h => by simp [chunks2] at h
+  | [_], _, c, h => by simp [chunks2] at h
+  | a :: b :: rest, hnd, c, h => by
+      simp only [chunks2, List.mem_cons] at h
+      simp only [List.nodup_cons, List.mem_cons, not_or] at hnd
+      rcases h with rfl | h
+      · exact hnd.1.1
+      · exact chunks2_ne rest hnd.2.2 c h
+
+/-- **C13, well-formedness (ear clipping)**: a successful `earclip_cell_countercw` / `earclip_cell_cw` keeps a
+    well-formed 2-map well formed — any face, any polygon, any ears.  User-side hypotheses: the spare darts are live
+    darts (non-null, existing, not removed) and pairwise distinct; everything else is established by the code's own
+    reads and by the success of its unsews. -/
+theorem C13_earclip_preserves_WF (cfg : Cfg Val) (inside : P2 → P2 → P2 → Bool) (m m' : Map Val) (face : Nat)
+    (nds : List Nat) (hwf : WF 3 m) (hsp : ∀ d ∈ nds, C01.InUse m d) (hnd : nds.Nodup)
+    (h : run (earclipCell cfg m.n inside face nds) m = (.ok (), m')) : WF 3 m' := by
+  unfold earclipCell at h
+  obtain ⟨darts, h1, h3⟩ := ro_bind_ok (readOnly_orbit2 m.n .faceLinear face) h
+  obtain ⟨vals, m2, h2, h4⟩ := run_bind_ok h3
+  obtain ⟨_, hm2⟩ := faceVertices_length m.n _ _ _ _ h2
+  subst hm2
+  clear h h3
+  cases hc : checkRequirements darts.length nds.length with
+  | error e => simp [hc] at h4
+  | ok v =>
+      simp only [hc] at h4
+      refine (keeps_earclipLoop (n := m2.n) (u := m2.u) cfg m2.n inside _ _ _ _ _ (Inv.of_wf hwf) ?_ h4).wf
+      intro c hcm
+      obtain ⟨a, b⟩ := chunks2_mem nds c hcm
+      exact ⟨hsp _ a, hsp _ b, chunks2_ne nds hnd c hcm⟩
+
+/-! ## the fan keeps the map well formed -/
+
+/-- an inner dart of a β1-path has its successor on the path -/
+theorem B1Chain.succ_mem {m : Map Val} : ∀ (l : List Nat) (d y : Nat), B1Chain m d l → y ∈ (d :: l).dropLast →
+    m.β 1 y ∈ l := by
+  intro l
+  induction l with
+  | nil => intro d y _ hy; simp [List.dropLast] at hy
+  | cons x rest ih =>
+      intro d y h hy
+      obtain ⟨h1, h2⟩ := h
+      rw [List.dropLast_cons_of_ne_nil (by simp)] at hy
+      simp only [List.mem_cons] at hy
+      rcases hy with rfl | hy
+      · rw [h1]; simp
+      · exact List.mem_cons_of_mem _ (ih x y h2 hy)
+
+/-- the loop of the fan kernels from apex dart `d0`: `L` is the β1-path ahead of `d0` (two darts more than there are
+    spare pairs left); at the end the last two darts of the path are still ahead of the returned dart -/
+theorem fanLoop_spec (cfg : Cfg Val) (nn : Nat) :
+    ∀ (cs : List (Nat × Nat)) (d0 : Nat) (L : List Nat) (m m' : Map Val) (r : Nat),
+      Inv n u m → Live n u d0 → B1Chain m d0 L → L.length = cs.length + 2 → L.Nodup → (∀ x ∈ L, x ≠ 0) →
+      (∀ c ∈ cs, Live n u c.1 ∧ Live n u c.2 ∧ c.1 ≠ c.2 ∧ c.1 ∉ L ∧ c.2 ∉ L) →
+      run (fanLoop cfg nn d0 cs) m = (.ok r, m') →
+      Inv n u m' ∧ Live n u r ∧ ∃ x1 x2, B1Chain m' r [x1, x2] ∧ x2 ≠ 0 := by
+  intro cs
+  induction cs with
+  | nil =>
+      intro d0 L m m' r hi hd0 hch hlen _ hnz _ h
+      simp [fanLoop] at h
+      obtain ⟨rfl, rfl⟩ := h
+      match L, hlen with
+      | [x1, x2], _ => exact ⟨hi, hd0, x1, x2, hch, hnz x2 (by simp)⟩
+  | cons c rest ih =>
+      intro d0 L m m' r hi hd0 hch hlen hnd hnz hsp h
+      obtain ⟨d1, d2⟩ := c
+      obtain ⟨l1, l2, hne, hn1, hn2⟩ := hsp (d1, d2) (by simp)
+      match L, hlen with
+      | x1 :: x2 :: L', hlen =>
+        obtain ⟨c1, c2, c3⟩ := hch
+        unfold fanLoop at h
+        obtain ⟨_, _, h⟩ := rB_ok hi h
+        rw [c1] at h
+        obtain ⟨_, _, h⟩ := rB_ok hi h
+        rw [c2] at h
+        obtain ⟨_, m1, s1, h⟩ := run_bind_ok h
+        obtain ⟨i1, lx1, lx2, e1⟩ := oneUnsew2_eff cfg nn hi s1
+        rw [c2] at lx2 e1
+        obtain ⟨_, m2, s2, h⟩ := run_bind_ok h
+        obtain ⟨i2, _, _, e2⟩ := twoSew2_eff cfg nn i1 l1 l2 hne s2
+        obtain ⟨_, m3, s3, h⟩ := run_bind_ok h
+        obtain ⟨i3, _, _, e3⟩ := oneSew2_eff cfg nn i2 l2 lx2 s3
+        obtain ⟨_, m4, s4, h⟩ := run_bind_ok h
+        obtain ⟨i4, _, _, e4⟩ := oneSew2_eff cfg nn i3 lx1 l1 s4
+        obtain ⟨_, m5, s5, h⟩ := run_bind_ok h
+        obtain ⟨i5, _, _, e5⟩ := oneSew2_eff cfg nn i4 l1 hd0 s5
+        -- β1 after the iteration
+        have b1 : ∀ y, m5.β 1 y = if d1 = y then d0 else if x1 = y then d1 else if d2 = y then x2 else
+            if x1 = y then 0 else m.β 1 y := by
+          intro y
+          rw [e5, e4, e3, e2, e1]
+          simp only [show ¬ (0 = 1) by decide, show ¬ (2 = 1) by decide, false_and, if_false, true_and]
+        simp only [List.mem_cons, not_or] at hn1 hn2
+        simp only [List.nodup_cons, List.mem_cons, not_or] at hnd
+        have hx1d2 : x1 ≠ d2 := fun hh => hn2.1 hh.symm
+        have hch' : B1Chain m5 d2 (x2 :: L') := by
+          refine ⟨?_, B1Chain.frame L' x2 c3 fun y hy => ?_⟩
+          · rw [b1, if_neg hne, if_neg hx1d2, if_pos rfl]
+          · have hyL : y ∈ x2 :: L' := List.dropLast_subset _ hy
+            have y1 : d1 ≠ y := by
+              rintro rfl; simp only [List.mem_cons] at hyL
+              rcases hyL with hh | hh
+              · exact hn1.2.1 hh
+              · exact hn1.2.2 hh
+            have y2 : d2 ≠ y := by
+              rintro rfl; simp only [List.mem_cons] at hyL
+              rcases hyL with hh | hh
+              · exact hn2.2.1 hh
+              · exact hn2.2.2 hh
+            have y3 : x1 ≠ y := by
+              rintro rfl; simp only [List.mem_cons] at hyL
+              rcases hyL with hh | hh
+              · exact hnd.1.1 hh
+              · exact hnd.1.2 hh
+            rw [b1, if_neg y1, if_neg y3, if_neg y2, if_neg y3]
+        refine ih d2 (x2 :: L') m5 m' r i5 l2 hch' (by simp at hlen ⊢; omega) ?_ ?_ ?_ h
+        · simp only [List.nodup_cons]; exact hnd.2
+        · intro x hx; exact hnz x (List.mem_cons_of_mem _ hx)
+        · intro c hc
+          obtain ⟨a1, a2, a3, a4, a5⟩ := hsp c (by simp [hc])
+          exact ⟨a1, a2, a3, fun hh => a4 (List.mem_cons_of_mem _ hh), fun hh => a5 (List.mem_cons_of_mem _ hh)⟩
+
+/-- the β1-path ahead of a dart: `L` are the next darts, pairwise distinct, distinct from it, non-null.  For a dart
+    of a closed `n`-gon face, `L` is the rest of the face (`n - 1` darts). -/
+structure FacePath (m : Map Val) (s : Nat) (L : List Nat) : Prop where
+  chain : B1Chain m s L
+  nodup : (s :: L).Nodup
+  nz : ∀ x ∈ L, x ≠ 0
+
+theorem attrOnly_writeVtx (d : Nat) (v : Val) : AttrOnly (writeVtx d v) := by
+  unfold writeVtx
+  refine AttrOnly.bind (AttrOnly.of_readOnly (ReadOnly.rA _ _)) fun _ => ?_
+  exact AttrOnly.bind (AttrOnly.wA _ _ _) fun _ => AttrOnly.pure _
+
+/-- the common tail of both fan kernels from the apex dart `s` -/
+theorem keeps_fanFrom (cfg : Cfg Val) (nn s : Nat) (nds : List Nat) (L : List Nat) (m m' : Map Val)
+    (hi : Inv n u m) (hp : FacePath m s L) (hlen : L.length = (chunks2 nds).length + 2)
+    (hsp : ∀ c ∈ chunks2 nds, Live n u c.1 ∧ Live n u c.2 ∧ c.1 ≠ c.2 ∧ c.1 ∉ L ∧ c.2 ∉ L)
+    (h : run (fanFrom cfg nn s nds) m = (.ok (), m')) : Inv n u m' := by
+  unfold fanFrom at h
+  obtain ⟨_, hs, h⟩ := rB_ok hi h
+  obtain ⟨vid, _, h⟩ := ro_bind_ok (readOnly_vertexId2 nn s) h
+  obtain ⟨v0, _, h⟩ := ro_bind_ok (ReadOnly.rA 0 vid) h
+  cases v0 with
+  | none => simp at h
+  | some v0 =>
+      simp only at h
+      obtain ⟨_, m1, s1, h⟩ := run_bind_ok h
+      obtain ⟨i1, lb0, _, e1⟩ := oneUnsew2_eff cfg nn hi s1
+      have ls : Live n u s := hi.live_of_image (by omega) hs lb0.1
+      -- β1(β0 s) = s, so the unsew cuts the dart before `s`, which is not an inner dart of the path
+      have hback : m.β 1 (m.β 0 s) = s := hi.wf.inv10 s (by rw [hi.n_eq]; exact hs) lb0.1
+      have hnd := hp.nodup
+      simp only [List.nodup_cons] at hnd
+      have hch1 : B1Chain m1 s L := by
+        refine B1Chain.frame L s hp.chain fun y hy => ?_
+        have hyne : m.β 0 s ≠ y := by
+          rintro rfl
+          have := B1Chain.succ_mem L s _ hp.chain hy
+          rw [hback] at this
+          exact hnd.1 this
+        rw [e1, if_neg (fun hh => absurd hh.1 (by decide)), if_neg (fun hh => hyne hh.2)]
+      obtain ⟨r, m2, s2, h⟩ := run_bind_ok h
+      obtain ⟨i2, lr, x1, x2, ⟨c1, c2, _⟩, hx2⟩ :=
+        fanLoop_spec cfg nn _ s L m1 m2 r i1 ls hch1 hlen hnd.2 hp.nz hsp s2
+      obtain ⟨_, _, h⟩ := rB_ok i2 h
+      rw [c1] at h
+      obtain ⟨_, hx1, h⟩ := rB_ok i2 h
+      rw [c2] at h
+      have lx2 : Live n u x2 := by
+        have := i2.live_image (i := 1) (by omega) hx1 (by rw [c2]; exact hx2)
+        rw [c2] at this; exact this
+      obtain ⟨_, m3, s3, h⟩ := run_bind_ok h
+      obtain ⟨i3, _, _, _⟩ := oneSew2_eff cfg nn i2 lx2 lr s3
+      obtain ⟨vid2, _, h⟩ := ro_bind_ok (readOnly_vertexId2 nn s) h
+      obtain ⟨_, m4, s4, h⟩ := run_bind_ok h
+      simp at h
+      rw [← h]
+      have st := attrOnly_writeVtx vid2 v0 m3
+      rw [s4] at st
+      exact i3.sameTopo st
+
+/-- **C13, well-formedness (fan, convex version)**: a successful `fan_convex_cell` keeps a well-formed 2-map well
+    formed, when the face dart lies on a β1-path of `n - 1` further distinct non-null darts (`n` = number of darts
+    the kernel counted: a closed `n`-gon face) and the spare darts are live, pairwise distinct and not on the
+    face. -/
+theorem C13_fan_convex_preserves_WF (cfg : Cfg Val) (m m' : Map Val) (face : Nat) (nds : List Nat) (L : List Nat)
+    (hwf : WF 3 m) (hp : FacePath m face L)
+    (hlen : ∀ darts, run (orbit2 m.n .faceLinear face) m = (.ok darts, m) → L.length + 1 = darts.length)
+    (hsp : ∀ d ∈ nds, C01.InUse m d ∧ d ∉ L) (hnd : nds.Nodup)
+    (h : run (fanConvexCell cfg m.n face nds) m = (.ok (), m')) : WF 3 m' := by
+  unfold fanConvexCell at h
+  obtain ⟨darts, h1, h3⟩ := ro_bind_ok (readOnly_orbit2 m.n .faceLinear face) h
+  cases hc : checkRequirements darts.length nds.length with
+  | error e => simp [hc] at h3
+  | ok v =>
+      simp only [hc] at h3
+      cases v
+      have hreq := (C13_check_requirements_ok_iff _ _).1 hc
+      have hk := chunks2_length nds
+      refine (keeps_fanFrom (n := m.n) (u := m.u) cfg m.n face nds L m m' (Inv.of_wf hwf) hp ?_ ?_ h3).wf
+      · have := hlen darts h1; omega
+      · intro c hcm
+        obtain ⟨a, b⟩ := chunks2_mem nds c hcm
+        exact ⟨(hsp _ a).1, (hsp _ b).1, chunks2_ne nds hnd c hcm, (hsp _ a).2, (hsp _ b).2⟩
+
+/-- **C13, well-formedness (fan)**: a successful `fan_cell` keeps a well-formed 2-map well formed, when every dart of
+    the face (as the kernel enumerates it) lies on a β1-path of `n - 1` further distinct non-null darts avoiding the
+    spare darts — i.e. the face is a closed `n`-gon — and the spare darts are live and pairwise distinct.
+    (`facePath_of_cycle` below derives the path hypothesis from one closed cycle.) -/
+theorem C13_fan_preserves_WF (cfg : Cfg Val) (m m' : Map Val) (face : Nat) (nds : List Nat)
+    (hwf : WF 3 m)
+    (hface : ∀ darts, run (orbit2 m.n .faceLinear face) m = (.ok darts, m) → ∀ s ∈ darts,
+      ∃ L, FacePath m s L ∧ L.length + 1 = darts.length ∧ ∀ d ∈ nds, d ∉ L)
+    (hsp : ∀ d ∈ nds, C01.InUse m d) (hnd : nds.Nodup)
+    (h : run (fanCell cfg m.n face nds) m = (.ok (), m')) : WF 3 m' := by
+  obtain ⟨darts, vals, id, h1, h2, h4, hn, hs, hfrom, _⟩ := C13_fan_kernel_star cfg m.n face nds m m' h
+  obtain ⟨hvl, _⟩ := faceVertices_length m.n _ _ _ _ h2
+  have hid : id < darts.length := by
+    have := (fanStarFrom_some _ _ id hs).1
+    simpa [hvl] using this
+  have hmem : darts.getD id 0 ∈ darts := by
+    rw [List.getD_eq_getElem?_getD, List.getElem?_eq_getElem hid]
+    exact List.getElem_mem hid
+  obtain ⟨L, hp, hl, hdis⟩ := hface darts h1 _ hmem
+  have hk := chunks2_length nds
+  refine (keeps_fanFrom (n := m.n) (u := m.u) cfg m.n _ nds L m m' (Inv.of_wf hwf) hp (by omega) ?_ hfrom).wf
+  intro c hcm
+  obtain ⟨a, b⟩ := chunks2_mem nds c hcm
+  exact ⟨hsp _ a, hsp _ b, chunks2_ne nds hnd c hcm, hdis _ a, hdis _ b⟩
+
+/-! ## closed faces: the path hypothesis from one cycle -/
+
+/-- `cyc = a :: rest` is a closed face: `a → rest[0] → … → a` through β1, darts pairwise distinct and non-null -/
+structure ClosedFace (m : Map Val) (a : Nat) (rest : List Nat) : Prop where
+  chain : B1Chain m a (rest ++ [a])
+  nodup : (a :: rest).Nodup
+  nz : ∀ x ∈ a :: rest, x ≠ 0
+
+theorem B1Chain.append {m : Map Val} : ∀ (l1 : List Nat) (d x : Nat) (l2 : List Nat),
+    B1Chain m d (l1 ++ x :: l2) ↔ B1Chain m d (l1 ++ [x]) ∧ B1Chain m x l2 := by
+  intro l1
+  induction l1 with
+  | nil => intro d x l2; simp [B1Chain]
+  | cons y rest ih =>
+      intro d x l2
+      simp only [List.cons_append, B1Chain]
+      rw [ih y x l2]
+      exact ⟨fun ⟨a, b, c⟩ => ⟨⟨a, b⟩, c⟩, fun ⟨⟨a, b⟩, c⟩ => ⟨a, b, c⟩⟩
+
+theorem B1Chain.prefix {m : Map Val} : ∀ (l1 l2 : List Nat) (d : Nat), B1Chain m d (l1 ++ l2) → B1Chain m d l1 := by
+  intro l1
+  induction l1 with
+  | nil => intro _ _ _; trivial
+  | cons y rest ih => intro l2 d h; exact ⟨h.1, ih l2 y h.2⟩
+
+/-- from any dart of a closed face, the rest of the face lies ahead on its β1-path -/
+theorem ClosedFace.rotate {m : Map Val} {a : Nat} {rest : List Nat} (hc : ClosedFace m a rest) {s : Nat}
+    (hs : s ∈ a :: rest) :
+    ∃ L, FacePath m s L ∧ L.length + 1 = (a :: rest).length ∧ (∀ x, x ∈ L → x ∈ a :: rest) ∧
+      (∀ x, x ∈ a :: rest → x = s ∨ x ∈ L) := by
+  obtain ⟨pre, post, hsplit⟩ := List.append_of_mem hs
+  cases pre with
+  | nil =>
+      simp only [List.nil_append, List.cons.injEq] at hsplit
+      obtain ⟨rfl, rfl⟩ := hsplit
+      exact ⟨rest, ⟨B1Chain.prefix rest [a] a hc.chain, hc.nodup, fun x hx => hc.nz x (by simp [hx])⟩, rfl,
+        fun x hx => by simp [hx], fun x hx => by simpa using hx⟩
+  | cons b pre' =>
+      simp only [List.cons_append, List.cons.injEq] at hsplit
+      obtain ⟨rfl, hrest⟩ := hsplit
+      have hch := hc.chain
+      rw [hrest, List.append_assoc, List.cons_append, B1Chain.append] at hch
+      obtain ⟨h1, h2⟩ := hch
+      refine ⟨post ++ a :: pre', ⟨?_, ?_, ?_⟩, ?_, ?_, ?_⟩
+      · rw [B1Chain.append]
+        exact ⟨h2, B1Chain.prefix pre' [s] a h1⟩
+      · have hnd := hc.nodup
+        rw [hrest] at hnd
+        have hperm : (s :: (post ++ a :: pre')).Perm (a :: (pre' ++ s :: post)) := by
+          have e1 : s :: (post ++ a :: pre') = (s :: post) ++ (a :: pre') := by simp
+          have e2 : a :: (pre' ++ s :: post) = (a :: pre') ++ (s :: post) := by simp
+          rw [e1, e2]; exact List.perm_append_comm
+        exact hperm.nodup_iff.2 hnd
+      · intro x hx
+        apply hc.nz x
+        rw [hrest]
+        simp only [List.mem_append, List.mem_cons] at hx ⊢
+        rcases hx with h | h | h
+        · exact Or.inr (Or.inr (Or.inr h))
+        · exact Or.inl h
+        · exact Or.inr (Or.inl h)
+      · rw [hrest]; simp; omega
+      · intro x hx
+        rw [hrest]
+        simp only [List.mem_append, List.mem_cons] at hx ⊢
+        rcases hx with h | h | h
+        · exact Or.inr (Or.inr (Or.inr h))
+        · exact Or.inl h
+        · exact Or.inr (Or.inl h)
+      · intro x hx
+        rw [hrest] at hx
+        simp only [List.mem_append, List.mem_cons] at hx ⊢
+        rcases hx with h | h | h | h
+        · exact Or.inr (Or.inr (Or.inl h))
+        · exact Or.inr (Or.inr (Or.inr h))
+        · exact Or.inl h
+        · exact Or.inr (Or.inl h)
+
+theorem B1Chain.reach {m : Map Val} : ∀ (l : List Nat) (d : Nat), B1Chain m d l →
+    ∀ x ∈ l, Reach (C03.g2 m .faceLinear) d x := by
+  intro l
+  induction l with
+  | nil => intro d _ x hx; simp at hx
+  | cons y rest ih =>
+      intro d h x hx
+      have h1 : Reach (C03.g2 m .faceLinear) d y := Reach.single (by simp [C03.g2, h.1])
+      simp only [List.mem_cons] at hx
+      rcases hx with rfl | hx
+      · exact h1
+      · exact h1.trans (ih y h.2 x hx)
+
+/-- a closed face is exactly what `orbit_transac(FaceLinear, face)` enumerates from any of its darts, and every
+    enumerated dart has the rest of the face ahead of it: the path hypothesis of `C13_fan_preserves_WF` -/
+theorem facePath_of_cycle {m : Map Val} (hwf : WF 3 m) {a : Nat} {rest : List Nat} (hc : ClosedFace m a rest)
+    {face : Nat} (hf : face ∈ a :: rest) (hlt : face < m.n) (nds : List Nat) (hdis : ∀ d ∈ nds, d ∉ a :: rest) :
+    ∀ darts, run (orbit2 m.n .faceLinear face) m = (.ok darts, m) → ∀ s ∈ darts,
+      ∃ L, FacePath m s L ∧ L.length + 1 = darts.length ∧ ∀ d ∈ nds, d ∉ L := by
+  intro darts hrun s hs
+  have hf0 : face ≠ 0 := hc.nz face hf
+  obtain ⟨hspec, _, hnd, _, hmem, _⟩ := C03.C03_orbit2_spec hwf (pol := .faceLinear) trivial hf0 hlt
+  rw [hspec] at hrun
+  simp only [Prod.mk.injEq, Out.ok.injEq, and_true] at hrun
+  subst hrun
+  -- the cycle is closed under β1
+  have hclosed : ∀ x, x ∈ a :: rest → m.β 1 x ∈ a :: rest := by
+    intro x hx
+    have hx' : x ∈ (a :: (rest ++ [a])).dropLast := by
+      have : a :: (rest ++ [a]) = (a :: rest) ++ [a] := by simp
+      rw [this, List.dropLast_concat]; exact hx
+    have := B1Chain.succ_mem _ a x hc.chain hx'
+    simp only [List.mem_append, List.mem_singleton, List.mem_cons, List.not_mem_nil, or_false] at this ⊢
+    rcases this with h | h
+    · exact Or.inr h
+    · exact Or.inl h
+  have hsub : ∀ x, Reach (C03.g2 m .faceLinear) face x → x ∈ a :: rest := by
+    intro x hr
+    induction hr with
+    | refl => exact hf
+    | tail _ hcx ih =>
+        simp only [C03.g2, List.mem_singleton] at hcx
+        rw [hcx]; exact hclosed _ ih
+  obtain ⟨Lf, hpf, _, _, hcov⟩ := hc.rotate hf
+  have hsame : ∀ x, x ∈ C03.orb m .faceLinear face ↔ x ∈ a :: rest := by
+    intro x
+    rw [hmem]
+    constructor
+    · intro ⟨_, hr⟩; exact hsub x hr
+    · intro hx
+      refine ⟨hc.nz x hx, ?_⟩
+      rcases hcov x hx with rfl | hL
+      · exact .refl _
+      · exact B1Chain.reach Lf face hpf.chain x hL
+  have hlen : (C03.orb m .faceLinear face).length = (a :: rest).length :=
+    ((List.perm_ext_iff_of_nodup hnd hc.nodup).2 hsame).length_eq
+  obtain ⟨L, hp, hl, hin, _⟩ := hc.rotate ((hsame s).1 hs)
+  exact ⟨L, hp, by rw [hlen]; exact hl, fun d hd hh => hdis d hd (hin d hh)⟩
+
+/-- **C13, well-formedness (fan) on a closed face**: `fan_cell` on a face given as one closed β1-cycle `a :: rest`
+    (pairwise distinct non-null darts), with live, pairwise distinct spare darts outside the face -/
+theorem C13_fan_preserves_WF_closed_face (cfg : Cfg Val) (m m' : Map Val) (face : Nat) (nds : List Nat)
+    (a : Nat) (rest : List Nat) (hwf : WF 3 m) (hc : ClosedFace m a rest) (hf : face ∈ a :: rest)
+    (hsp : ∀ d ∈ nds, C01.InUse m d ∧ d ∉ a :: rest) (hnd : nds.Nodup)
+    (h : run (fanCell cfg m.n face nds) m = (.ok (), m')) : WF 3 m' := by
+  obtain ⟨L, hp, _, hin, _⟩ := hc.rotate hf
+  have hlt : face < m.n := by
+    cases L with
+    | nil =>
+        -- a one-dart face: β1 face = face
+        have := hc.chain
+        cases rest with
+        | nil =>
+            simp only [List.nil_append, B1Chain] at this
+            simp only [List.mem_singleton] at hf
+            subst hf
+            exact hwf.toSized.lt_of_β_ne (i := 1) (by omega) (by rw [this.1]; exact hc.nz _ (by simp))
+        | cons y r => simp at *
+    | cons x L' =>
+        exact hwf.toSized.lt_of_β_ne (i := 1) (by omega) (by rw [hp.chain.1]; exact hp.nz x (by simp))
+  exact C13_fan_preserves_WF cfg m m' face nds hwf
+    (facePath_of_cycle hwf hc hf hlt nds (fun d hd => (hsp d hd).2)) (fun d hd => (hsp d hd).1) hnd h
+
+/-! ## non-vacuity -/
+
+theorem ok_of_fst {p : P Val Unit} {m : Map Val} (h : (run p m).1 = .ok ()) : run p m = (.ok (), (run p m).2) := by
+  revert h
+  generalize run p m = r
+  obtain ⟨o, m'⟩ := r
+  intro h; simp at h; subst h; rfl
+
+/-- the pentagon face 1-2-3-4-5 of `d7Map` with spare darts 6–9: ear clipping, fan (apex 1) and the convex fan all
+    succeed and the theorems apply -/
+example : WF 3 (run (earclipCell (stdCfg 3 0) d7Map.n insideCCW 1 [6, 7, 8, 9]) d7Map).2 :=
+  C13_earclip_preserves_WF _ _ d7Map _ 1 [6, 7, 8, 9] (by decide +kernel) (by decide +kernel) (by decide)
+    (ok_of_fst (by decide +kernel))
+
+example : ClosedFace d7Map 1 [2, 3, 4, 5] := ⟨by decide +kernel, by decide, by decide⟩
+
+example : WF 3 (run (fanCell (stdCfg 3 0) d7Map.n 1 [6, 7, 8, 9]) d7Map).2 :=
+  C13_fan_preserves_WF_closed_face _ d7Map _ 1 [6, 7, 8, 9] 1 [2, 3, 4, 5] (by decide +kernel)
+    ⟨by decide +kernel, by decide, by decide⟩ (by decide) (by decide +kernel) (by decide)
+    (ok_of_fst (by decide +kernel))
+
+example : WF 3 (run (fanConvexCell (stdCfg 3 0) d7Map.n 1 [6, 7, 8, 9]) d7Map).2 :=
+  C13_fan_convex_preserves_WF _ d7Map _ 1 [6, 7, 8, 9] [2, 3, 4, 5] (by decide +kernel)
+    ⟨by decide +kernel, by decide, by decide⟩
+    (by
+      intro darts hd
+      have : (run (orbit2 d7Map.n .faceLinear 1) d7Map).1 = .ok [1, 2, 3, 4, 5] := by decide +kernel
+      rw [hd] at this
+      simp only [Out.ok.injEq] at this
+      subst this; rfl)
+    (by decide +kernel) (by decide) (ok_of_fst (by decide +kernel))
 
 end HC.C13
